@@ -197,6 +197,7 @@ Definition process_received_headers (cfg : config) (f : hflags) (hs : list hitem
 
 Definition receive_push_promise_in_band (cfg : config) (promised : Z) (hs : list hitem) : SM (list event) :=
   evs <- fsm SI_RECV_PUSH_PROMISE ;;
+  (match evs with [] => lift_res perr | _ => ret tt end) ;;;      (* a parent that is still idle: ProtocolError *)
   f <- lift_res (build_flags evs) ;;
   h <- lift_res (process_received_headers cfg f hs) ;;
   s <- get ;; ret [EPushedStreamReceived promised (s_id s) h].
